@@ -9,6 +9,10 @@
 (* ignored.  Executions are separated by {"a":"Reset"} lines.                  *)
 EXTENDS AlignedVec, Json, IOUtils, TLCExt
 
+\* the element type of the recorded vectors: sizeof(T) / alignof(T), given by the environment of the validation run
+TESize  == atoi(IOEnv.C14_ESIZE)
+TEAlign == atoi(IOEnv.C14_EALIGN)
+
 VARIABLE l
 tvars == <<v, last, l>>
 
@@ -44,7 +48,8 @@ Dispatch ==
   \/ Line.a = "SelfAssign" /\ SelfAssign(Line.arg.i)
   \/ Line.a = "InsertOwn" /\ InsertOwn(Line.arg.i)
   \/ Line.a = "ResizeValOwn" /\ ResizeValOwn(Line.arg.i, Line.arg.n)
-  \/ Line.a = "Allocate" /\ Allocate(Line.arg.how, Line.arg.rel, Line.arg.d)
+  \/ Line.a = "Allocate" /\ Line.arg.how # "rebind_to" /\ Allocate(Line.arg.how, Line.arg.rel, Line.arg.d)
+  \/ Line.a = "Allocate" /\ Line.arg.how = "rebind_to" /\ AllocateTo(Line.arg.to, Line.arg.rel, Line.arg.d)
 
 TStep  == /\ l <= N /\ Line.a # "Reset"
           /\ Dispatch
